@@ -21,3 +21,19 @@ PROPS["C11"] = dict(
     ],
     assumptions=["the underlying store is set-like (C01)", "Term::eq is an equivalence (C02)"],
 )
+
+import translate  # noqa: E402
+
+PROPS["C02"] = dict(
+    level="proof",
+    translators=[translate.gen_consts],
+    runs=[dict(bin="c02")],
+    quick=dict(n=12, shards=16),
+    thorough=dict(n=400, shards=64, run_timeout=3000, coq_case_timeout=3000),
+    trusted_base=[
+        "model coq/Common/Term.v of the default Term::eq/cmp/hash in api/src/term.rs and of LanguageTag's folded Eq/Ord/Hash (hand-written); TermKind discriminants re-generated from the source (gen/Consts.v)",
+        "hash model assumes a 64-bit little-endian target (isize discriminant = 8 bytes)",
+        "IsoTerm / C14nTerm / JSON-LD adapter terms are private to their crates and are exercised only through C05/C07/C12",
+    ],
+    assumptions=["terms are well-formed: an untagged literal is never typed rdf:langString (the Term contract); lemma wf_needed shows the order laws fail otherwise"],
+)
